@@ -3,7 +3,7 @@ import itertools
 import random
 import time
 
-from . import common, kani_runner, gen_cmp
+from . import common, kani_runner, gen_cmp, e3_extras
 from .common import log
 from .gen_cmp import Field, TypeSpec, Variant, entry_attrs, place, candidate_desc, pos_class, accepted, sig_of
 
@@ -165,6 +165,7 @@ def run(tier):
     programs = []
     for i, (cand, t) in enumerate(acc):
         programs.append(build_program("p%05d" % i, t, cand[2], cand[3], candidate_desc(*cand), sig_of(cand)))
+    e3x = e3_extras.summary(e3_extras.c01_selection(out))
     stats = run_batches(programs)
     counts = kani_runner.triage(PID, programs, out)
     wall = time.time() - t0
@@ -188,6 +189,7 @@ def run(tier):
         "solver": "CBMC 6.11.0 via Kani 0.68.0 (cadical)", "solver_time_s": round(stats["solver_time_s"], 2),
         "kani_wall_s": round(stats["kani_wall_s"], 2), "queries_discharged": counts.get("success", 0),
     }
+    cov.update(e3x)
     common.write_evidence(PID, tier, cov, ASSUMPTIONS, wall, len(out.violations))
     return out.finish()
 
